@@ -13,6 +13,7 @@ import (
 	"path/filepath"
 	"strconv"
 	"strings"
+	"time"
 
 	connect "github.com/bufbuild/connect-go"
 	"google.golang.org/protobuf/proto"
@@ -56,6 +57,7 @@ type genFile struct {
 	goPackage string
 	services  []genService
 	comments  bool
+	localMsgs bool // the RPCs use messages Req / Res defined in this file (in its own Go package)
 }
 
 func (f genFile) request() *pluginpb.CodeGeneratorRequest {
@@ -78,6 +80,13 @@ func (f genFile) request() *pluginpb.CodeGeneratorRequest {
 		for mi, m := range s.methods {
 			md := &descriptorpb.MethodDescriptorProto{Name: proto.String(m.name), InputType: proto.String(".google.protobuf.Empty"), OutputType: proto.String(".google.protobuf.Empty"),
 				ClientStreaming: proto.Bool(m.cs), ServerStreaming: proto.Bool(m.ss)}
+			if f.localMsgs {
+				pfx := "."
+				if f.pkg != "" {
+					pfx = "." + f.pkg + "."
+				}
+				md.InputType, md.OutputType = proto.String(pfx+"Req"), proto.String(pfx+"Res")
+			}
 			if m.dep {
 				md.Options = &descriptorpb.MethodOptions{Deprecated: proto.Bool(true)}
 			}
@@ -90,6 +99,9 @@ func (f genFile) request() *pluginpb.CodeGeneratorRequest {
 	}
 	if f.comments {
 		fd.SourceCodeInfo = loc
+	}
+	if f.localMsgs {
+		fd.MessageType = []*descriptorpb.DescriptorProto{{Name: proto.String("Req")}, {Name: proto.String("Res")}}
 	}
 	return &pluginpb.CodeGeneratorRequest{FileToGenerate: []string{"dir/probe.proto"}, ProtoFile: []*descriptorpb.FileDescriptorProto{empty, fd}}
 }
@@ -385,6 +397,15 @@ func streamGen(c *Ctx) {
 	// unexported identifiers derived from them must be distinct too
 	files = append(files, genFile{pkg: "caps.v1", goPackage: "example.com/gen/caps/v1;capsv1", services: []genService{
 		{name: "APIService", methods: []genMethod{{name: "IDToken"}, {name: "IdToken"}, {name: "GO", ss: true}, {name: "Go", cs: true}, {name: "HTTPGet"}, {name: "HttpGet"}}}}})
+	// message packages whose last path element is the name of a package the generated code
+	// imports itself (net/http, context, errors, strings, connect): import aliases must not clash.
+	// The packages live inside the type-check module (stub types: the generated code is generic).
+	for _, last := range []string{"http", "context", "errors", "strings", "connect"} {
+		files = append(files, genFile{pkg: "alias." + last, goPackage: "gen.test/msgs/" + last, localMsgs: true, services: []genService{
+			{name: "Gateway", methods: []genMethod{{name: "Do"}, {name: "Watch", ss: true}, {name: "Push", cs: true}}}}})
+	}
+	// the service whose generated client the type-check step also RUNS (genRunProbe)
+	files = append(files, genFile{pkg: "probe.v1", goPackage: "example.com/gen/probe/v1;probev1", services: []genService{{name: "Probe", methods: []genMethod{{name: "Do"}}}}})
 	// long names: package, service and method names have no length limit; the synthesized doc
 	// comments contain them as single words
 	longPkg := "acme.platform.infrastructure.observability.telemetry.ingestion.pipeline.v1alpha1"
@@ -531,6 +552,52 @@ func typecheckGenerated(c *Ctx, outDir string) {
 	if len(entries) == 0 {
 		return
 	}
+	// stub message packages for the alias-collision files
+	for _, last := range []string{"http", "context", "errors", "strings", "connect"} {
+		dir := filepath.Join(outDir, "msgs", last)
+		_ = os.MkdirAll(dir, 0o755)
+		_ = os.WriteFile(filepath.Join(dir, "types.go"), []byte("package "+last+"\n\ntype Req struct{}\ntype Res struct{}\n"), 0o644)
+	}
+	// a program that uses the generated Probe client with base URLs ending in 0..3 slashes
+	probeDir := ""
+	for _, e := range entries {
+		if b, err := os.ReadFile(filepath.Join(outDir, e.Name(), "gen.connect.go")); err == nil && strings.Contains(string(b), "NewProbeClient") {
+			probeDir = e.Name()
+		}
+	}
+	if probeDir != "" {
+		dir := filepath.Join(outDir, "runprobe")
+		_ = os.MkdirAll(dir, 0o755)
+		_ = os.WriteFile(filepath.Join(dir, "main.go"), []byte(`package main
+
+import (
+	"context"
+	"fmt"
+	"io"
+	"net/http"
+	"strings"
+
+	connect "github.com/bufbuild/connect-go"
+	probe "gen.test/`+probeDir+`"
+	"google.golang.org/protobuf/types/known/emptypb"
+)
+
+type capture struct{}
+
+func (capture) Do(r *http.Request) (*http.Response, error) {
+	fmt.Println("URL", r.URL.String())
+	go func() { _, _ = io.Copy(io.Discard, r.Body); _ = r.Body.Close() }()
+	return &http.Response{StatusCode: 200, Header: http.Header{"Content-Type": {"application/proto"}}, Body: io.NopCloser(strings.NewReader(""))}, nil
+}
+
+func main() {
+	for _, base := range []string{"http://h", "http://h/", "http://h//", "http://h/api///"} {
+		cl := probe.NewProbeClient(capture{}, base)
+		_, _ = cl.Do(context.Background(), connect.NewRequest(&emptypb.Empty{}))
+	}
+}
+`), 0o644)
+	}
 	gomod := "module gen.test\n\ngo 1.18\n\nrequire (\n\tgithub.com/bufbuild/connect-go v0.0.0\n\tgoogle.golang.org/protobuf v1.28.0\n)\n\nreplace github.com/bufbuild/connect-go => " + repoDir() + "\n"
 	_ = os.WriteFile(filepath.Join(outDir, "go.mod"), []byte(gomod), 0o644)
 	if sum, err := os.ReadFile(filepath.Join(repoDir(), "go.sum")); err == nil {
@@ -547,6 +614,23 @@ func typecheckGenerated(c *Ctx, outDir string) {
 			text = text[:1500]
 		}
 		c.Fail("gen-typecheck", fmt.Sprintf("go build of %d generated packages", len(entries)), strings.ReplaceAll(text, "\n", " | "), "generated code does not type-check against the library")
+		return
+	}
+	if probeDir == "" {
+		return
+	}
+	// run the generated client: whatever number of trailing slashes the base URL has, the request
+	// goes to <base>/<canonical path>
+	rctx, rcancel := context.WithTimeout(context.Background(), 90*time.Second)
+	defer rcancel()
+	run := exec.CommandContext(rctx, "go", "run", "./runprobe")
+	run.Dir = outDir
+	run.Env = cmd.Env
+	rout, rerr := run.CombinedOutput()
+	want := "URL http://h/probe.v1.Probe/Do\nURL http://h/probe.v1.Probe/Do\nURL http://h/probe.v1.Probe/Do\nURL http://h/api/probe.v1.Probe/Do\n"
+	c.Count("gen-run-probe")
+	if rerr != nil || string(rout) != want {
+		c.Fail("gen-path", "the generated NewProbeClient with base URLs http://h, http://h/, http://h//, http://h/api///", strings.ReplaceAll(string(rout), "\n", " | "), "the generated client must call <base without trailing slashes>/probe.v1.Probe/Do")
 	}
 }
 
